@@ -159,7 +159,7 @@ theorem decQ_encQ (q : QVal) (rest : Bytes) (hq : QReduced q)
   rw [List.append_assoc, decI_encI _ _ h1]
   simp only [Option.bind_eq_bind, Option.bind_some]
   rw [decU_encU _ _ h2]
-  have hd : ¬ (q.den = 0 ∧ q.num ≠ 0) := by have := hq.1; omega
+  have hd : ¬ (q.den = 0) := by have := hq.1; omega
   simp [hd, qreduce_of_reduced q hq]
 
 theorem decX_encQ (q : QVal) (rest : Bytes) (hq : QRelaxed q)
@@ -169,7 +169,7 @@ theorem decX_encQ (q : QVal) (rest : Bytes) (hq : QRelaxed q)
   rw [List.append_assoc, decI_encI _ _ h1]
   simp only [Option.bind_eq_bind, Option.bind_some]
   rw [decU_encU _ _ h2]
-  have hd : ¬ (q.den = 0 ∧ q.num ≠ 0) := by have := hq.1; omega
+  have hd : ¬ (q.den = 0) := by have := hq.1; omega
   simp [hd, qreduce2_of_relaxed q hq]
 
 /-- whatever bytes arrive, a decoded `RBig` is in lowest terms with a positive denominator -/
@@ -184,17 +184,13 @@ theorem decQ_canonical (s : Bytes) (q : QVal) (r : Bytes) (h : decQ s = some (q,
     | some p2 =>
       obtain ⟨d, r2⟩ := p2
       simp only [h1, h2, Option.bind_eq_bind, Option.bind_some] at h
-      by_cases hc : d = 0 ∧ n ≠ 0
+      by_cases hc : d = 0
       · simp [hc] at h
       · simp only [hc, if_false] at h
         have hq : q = qreduce n d := by
           simp at h; exact h.1.symm
         subst hq
-        by_cases hd : d = 0
-        · have hn : n = 0 := by
-            by_contra hne; exact hc ⟨hd, hne⟩
-          subst hn; simp [qreduce, QReduced]
-        · exact qreduce_reduced n d (by omega)
+        exact qreduce_reduced n d (by omega)
 
 theorem decX_canonical (s : Bytes) (q : QVal) (r : Bytes) (h : decX s = some (q, r)) : QRelaxed q := by
   unfold decX at h
@@ -207,17 +203,13 @@ theorem decX_canonical (s : Bytes) (q : QVal) (r : Bytes) (h : decX s = some (q,
     | some p2 =>
       obtain ⟨d, r2⟩ := p2
       simp only [h1, h2, Option.bind_eq_bind, Option.bind_some] at h
-      by_cases hc : d = 0 ∧ n ≠ 0
+      by_cases hc : d = 0
       · simp [hc] at h
       · simp only [hc, if_false] at h
         have hq : q = qreduce2 n d := by
           simp at h; exact h.1.symm
         subst hq
-        by_cases hd : d = 0
-        · have hn : n = 0 := by
-            by_contra hne; exact hc ⟨hd, hne⟩
-          subst hn; simp [qreduce2, QRelaxed]
-        · exact qreduce2_relaxed n d (by omega)
+        exact qreduce2_relaxed n d (by omega)
 
 /-- the code as it is: a zero denominator survives (`±1/0`) -/
 theorem decQAsIs_counterexample : ∃ q r, decQAsIs [1, 1, 0] = some (q, r) ∧ ¬ QReduced q := by
@@ -398,6 +390,7 @@ theorem decFAsIs_counterexample :
       unzigzag, fnew, hs, inIsize, inI64]
   · intro h
     have := h.2
+    dsimp only at this
     rw [ndigits_12345] at this
     omega
 
